@@ -57,6 +57,78 @@ def extra(ctx, res):
             res["violations"].append({"signature": "root-relative", "what": d, "replay": dict(case, config={"d": []}, update=False)})
     res["samples"].append(case)
     res["nontrivial"] += n
+    # normalization is compositional too: with normalization on, a dict sub-document ends as it does when it is
+    # processed on its own by a validator carrying the field's overrides (allow_unknown, purge_unknown, require_all)
+    import copy as _copy
+    import pool as _pool
+    from gen import Gen as _Gen
+    g2 = _Gen(ctx["seed"] + 1010, normalization=True, nested_bias=True, purge_bias=True)
+    nn = 6000 if ctx["tier"] == "thorough" else 700 * ctx.get("scale", 1)
+
+    def leaves(errs, strip):
+        out = []
+        for e in errs:
+            if e.child_errors and not e.is_logic_error:
+                out.extend(leaves(e.child_errors, strip))
+            else:
+                out.append((tuple(e.document_path)[strip:], e.code))
+        return sorted(out, key=repr)
+    for i in range(nn):
+        sub_schema = g2.schema()
+        wrapper = {'type': 'dict', 'schema': sub_schema}
+        for opt in ('allow_unknown', 'purge_unknown', 'require_all'):
+            if rng.random() < 0.5:
+                wrapper[opt] = rng.random() < 0.5
+        schema = {'f': wrapper, 'g': {}}
+        cfg = g2.config()
+        if not isinstance(cfg.get('allow_unknown', False), bool):
+            cfg['allow_unknown'] = True
+        sub_doc = g2.doc_for(sub_schema, p_present=0.8)
+        if isinstance(sub_doc, dict) and rng.random() < 0.7:
+            sub_doc['zz_unknown'] = rng.choice([1, 'x', None])
+        doc = {'f': sub_doc, 'g': 1}
+        upd = rng.random() < 0.3
+        try:
+            v = _pool.PoolValidator(_copy.deepcopy(schema), **_copy.deepcopy(cfg))
+            v.validate(_copy.deepcopy(doc), update=upd)
+        except Exception:
+            continue
+        for f, rules in schema.items():
+            if not (isinstance(rules, dict) and rules.get('type') == 'dict' and isinstance(rules.get('schema'), dict)
+                    and isinstance(doc.get(f), dict) and all(isinstance(x, dict) for x in rules['schema'].values())):
+                continue
+            if any(k in rules for k in ('coerce', 'default', 'default_setter', 'readonly', 'dependencies', 'keysrules', 'valuesrules',
+                                        'allof', 'anyof', 'noneof', 'oneof', 'check_with', 'excludes')):
+                continue
+            if not isinstance(rules.get('allow_unknown', False), bool) or oracles.has_caret(rules['schema']) or oracles.mentions(rules['schema'], ('readonly',)):
+                continue
+            if not isinstance(v.document.get(f), dict):
+                continue
+            c2 = {k: x for k, x in cfg.items() if k in ('ignore_none_values', 'purge_readonly')}
+            c2['allow_unknown'] = rules.get('allow_unknown', cfg.get('allow_unknown', False))
+            c2['purge_unknown'] = rules.get('purge_unknown', cfg.get('purge_unknown', False))
+            c2['require_all'] = rules.get('require_all', cfg.get('require_all', False))
+            try:
+                alone = _pool.PoolValidator(_copy.deepcopy(rules['schema']), **c2)
+                alone.validate(_copy.deepcopy(doc[f]), update=upd)
+            except Exception:
+                continue
+            res["cases"] += 1
+            res["nontrivial"] += 1
+            # the field's own rules may stop before `schema` (type, empty ...): only compare when the schema rule ran or nothing failed at f itself
+            own = [e for e in v._errors if tuple(e.document_path) == (f,) and e.code != 0x81]
+            if own:
+                continue
+            a = leaves([e for e in v._errors if tuple(e.document_path)[:1] == (f,)], 1)
+            b = leaves(alone._errors, 0)
+            d = None
+            if v.document.get(f) != alone.document:
+                d = "processed sub-document under %r: nested %r, on its own %r" % (f, v.document.get(f), alone.document)
+            elif a != b:
+                d = "errors beneath %r with normalization on: nested %r != on its own %r" % (f, a[:3], b[:3])
+            if d:
+                res["violations"].append({"signature": "standalone-normalized:" + d.split(" ")[0], "what": d,
+                                          "replay": {"schema": common.jval(schema), "document": common.jval(doc), "config": common.jval(cfg), "update": upd}})
     # directed family: a sub-document key named 'dependencies' below a field that has a `dependencies` rule followed by
     # another rule (the rule's closing look-up reads the DOCUMENT error tree with a SCHEMA path)
     import copy
